@@ -230,5 +230,66 @@ contract("xdis.marsh:_Marshaller.dump_code3", name="xdis.marsh:_Marshaller.dump_
          params={"self": Marshaller(), "x": PortableCode()}, raises={TypeError: lambda x: hasattr(x, "co_exceptiontable")},
          ensures=lambda self: [("a 3.11+ code object must be refused", False)], no_native_replay=True)
 
+
+# ------------------------------------------------------------------------------------------------ Python 2 layout
+# _Marshaller.dump_code2 against the 2.3-2.7 layout of spec/marshal_fmt.code_layout.  Python 2 wants byte strings in
+# co_code, co_filename, co_name, co_lnotab and *inside* the names/varnames tuples: those go through dump_string, whose
+# bytes for v are the abstract chunk S(v) (TYPE_STRING, length, bytes); every other object is D(v) as above.  The two
+# name tuples have a concrete length here (2 and 3 entries): the per-entry loop is unrolled, so the order and framing of
+# the entries is proved for that length only (stated in the evidence as a bound of this unit).
+def _schunk(eng, v):
+    tab = eng.__dict__.setdefault("dump_string_chunks", {})
+    ent = tab.get(id(v))
+    if ent is None:
+        ent = (v, z3.Const(eng.fresh("S!%s" % getattr(v, "tag", "v")), z3.SeqSort(z3.IntSort())))
+        tab[id(v)] = ent
+    return ent[1]
+
+
+def _dump_string_effect(eng, vals, result, exc):
+    sink = vals["self"]._write
+    sink.seq = z3.Concat(sink.seq, _schunk(eng, vals["x"]))
+
+
+DUMP_STRING_ABSTRACT = Contract("xdis.marsh:_Marshaller.dump_string", name="xdis.marsh:_Marshaller.dump_string/abstract", effect=_dump_string_effect,
+                                note="the bytes dump_string writes for a value are abstract (S)")
+PY2_STRING_FIELDS = ("co_code", "co_filename", "co_name", "co_lnotab")
+PY2_STRING_TUPLES = ("co_names", "co_varnames")
+
+
+class PortableCode2(Maker):
+    def __call__(self, eng, name):
+        from xdis.codetype.code20 import Code2
+        fields = {"__class__": Code2}
+        for f in ("co_argcount", "co_nlocals", "co_stacksize", "co_flags", "co_firstlineno"):
+            fields[f] = SInt(z3.Int("%s.%s" % (name, f)))
+        for f in ("co_code", "co_consts", "co_freevars", "co_cellvars", "co_filename", "co_name", "co_lnotab"):
+            fields[f] = Opaque(f)
+        for f, n in zip(PY2_STRING_TUPLES, (2, 3)):       # different lengths: a count taken from the other tuple is seen
+            fields[f] = tuple(Opaque("%s[%d]" % (f, i)) for i in range(n))
+        return SObj(**fields), []
+
+
+def code2_post(self, x, _old_self, _engine):
+    want = _old_self.out + [ord("c")]
+    for kind, f in MF.code_layout((2, 7)):
+        val = getattr(x, f)
+        if kind == "i32":
+            want = want + le32(val)
+        elif f in PY2_STRING_TUPLES:
+            want = want + [ord("(")] + le32(len(val))
+            for item in val:
+                want = want + ZSeq(_schunk(_engine, item))
+        elif f in PY2_STRING_FIELDS:
+            want = want + ZSeq(_schunk(_engine, val))
+        else:
+            want = want + ZSeq(_chunk(_engine, val))
+    return [("layout", seq_eq(out_of(self), want))]
+
+
+contract("xdis.marsh:_Marshaller.dump_code2", configs={"2.7": {"_ver": "2.7"}},
+         params={"self": Marshaller(), "x": PortableCode2()}, ensures=code2_post, no_native_replay=True,
+         note="names/varnames tuples of two and three entries (loops unrolled): bound of this unit")
+
 import contracts.marsh as _CM
-ALL_CONTRACTS = CONTRACTS + [EXT_MARSHAL_DUMPS, EXT_XDIS_DUMPS, DUMP_ABSTRACT] + [c for c in _CM.CONTRACTS if c.qualname.startswith("_Marshaller.w_")]
+ALL_CONTRACTS = CONTRACTS + [EXT_MARSHAL_DUMPS, EXT_XDIS_DUMPS, DUMP_ABSTRACT, DUMP_STRING_ABSTRACT] + [c for c in _CM.CONTRACTS if c.qualname.startswith("_Marshaller.w_")]
